@@ -300,7 +300,9 @@ VALUES = [None, ["i", 1], ["b", True], ["h", 2], ["s", "1"], ["i", 0], ["b", Fal
 
 
 def gen_const(rng, depth):
-    return ["C", gen_type(rng, min(depth, 1)), rng.choice([None, None, True, False]), rng.choice(VALUES)]
+    # unassigned constants and constants explicitly assigned None (has_value=True) on purpose
+    value = None if rng.random() < 0.3 else rng.choice(VALUES)
+    return ["C", gen_type(rng, min(depth, 1)), rng.choice([None, None, True, True, False]), value]
 
 
 def gen_prog(rng, depth):
@@ -1015,6 +1017,14 @@ def corpus():
         {"kind": "pair", "a": ["sum", ["poly", "a"], ["p", "a"]], "b": ["sum", ["p", "a"], ["poly", "a"], ["fpoly", "a"]]},
         {"kind": "pair", "a": ["F", False, f], "b": f},
         {"kind": "pair", "a": ["L", ["V", 0, I], I], "b": ["L", ["V", 0, B], B]},
+        # minimised failures of the self-test mutations
+        {"kind": "pair", "a": ["g", "list", False], "b": ["g", "list", False, I]},
+        {"kind": "pair", "a": ["sum", ["poly", "a"], ["poly", "a"]], "b": ["sum", ["poly", "a"], ["poly", "a"], ["poly", "a"]]},
+        {"kind": "pair", "a": ["->", I, B], "b": ["->", B, B]},
+        {"kind": "pair", "a": ["C", I, None, ["i", 2]], "b": ["C", I, False, ["i", 2]]},
+        {"kind": "pair", "a": ["fpoly", "a", I, B], "b": ["fpoly", "a", B, I]},
+        {"kind": "persist", "objs": [["V", 7, ["g", "int", False, B]], ["C", I, True, None], ["P", "f", ["->", I, I]], ["g", "list", True, I]],
+         "tasks": [], "grammars": [], "seed_w": 1, "seed_r": 2, "protocol": None, "optimize": True},
         {"kind": "mutate", "a": ["C", I, None, None], "ops": [{"path": [], "op": "assign", "value": ["i", 5]}, {"path": [], "op": "reset"}]},
         {"kind": "mutate", "a": ["F", False, f, ["C", I, None, None]], "ops": [{"path": [1], "op": "assign", "value": ["i", 5]}]},
     ]
